@@ -1,4 +1,4 @@
-package capnp
+package rpc
 
 import "sync"
 
